@@ -1157,3 +1157,106 @@ Proof.
   exists f0. intros fuel Hle. rewrite (H fuel Hle). cbn [pr_tree frag_tokens].
   now rewrite of_to_node, Hwf.
 Qed.
+
+(* ---------- with the fuel the front end really uses ---------- *)
+From GrolProofs Require Import Parser_term Parser_nopanic.
+
+(* neither an end marker nor a line comment *)
+Definition plain_ty (ty : Z) : bool :=
+  negb (Z.eqb ty token_EOF || Z.eqb ty token_EOL || Z.eqb ty token_LINECOMMENT).
+
+Lemma plain_ty_by_fn (P : Z -> bool) ty :
+  P ty = true -> P token_EOF = false -> P token_EOL = false -> P token_LINECOMMENT = false -> plain_ty ty = true.
+Proof.
+  intros H H1 H2 H3. unfold plain_ty. apply negb_true_iff.
+  destruct (Z.eqb_spec ty token_EOF) as [->|_]; [congruence|].
+  destruct (Z.eqb_spec ty token_EOL) as [->|_]; [congruence|].
+  destruct (Z.eqb_spec ty token_LINECOMMENT) as [->|_]; [congruence|]. reflexivity.
+Qed.
+
+Lemma atom_plain conv t a : atom_wf conv t a = true -> plain_ty (ttype t) = true.
+Proof.
+  destruct a; cbn [atom_wf]; intros H.
+  - apply Z.eqb_eq in H. now rewrite H.
+  - apply andb_true_iff in H as [H _]. apply Z.eqb_eq in H. now rewrite H.
+  - apply andb_true_iff in H as [H _]. apply Z.eqb_eq in H. now rewrite H.
+  - apply Z.eqb_eq in H. now rewrite H.
+  - apply orb_true_iff in H as [H|H]; apply Z.eqb_eq in H; now rewrite H.
+  - now apply (plain_ty_by_fn (fun ty => has_prefix_fn ty "parseControlExpression")).
+Qed.
+
+Definition plain_m (m : mtok) : Prop := plain_ty (ttype (fst m)) = true.
+
+Lemma body_plain conv e : wf_ex conv e = true -> Forall plain_m (body e).
+Proof.
+  assert (W : forall c x, Forall plain_m (body x) -> Forall plain_m (toks c x)).
+  { intros c x Hx. unfold toks. destruct (paren c x); [|exact Hx].
+    constructor; [reflexivity|]. apply Forall_app. split; [exact Hx|constructor; [reflexivity|constructor]]. }
+  induction e as [t a|op r IH|op l r IHl IHr|t f args IHf IHa|t l i IHl IHi] using ex_ind2; intros H; cbn [wf_ex] in H.
+  - cbn [body]. constructor; [|constructor]. now apply (atom_plain conv _ a).
+  - rewrite body_pre. apply andb_true_iff in H as [Hop Hr]. constructor; [|apply W, IH, Hr].
+    now apply (plain_ty_by_fn is_prefix_op).
+  - rewrite body_bin. repeat (apply andb_true_iff in H as [H ?]).
+    apply Forall_app. split; [apply W, IHl; assumption|]. constructor; [|apply W, IHr; assumption].
+    now apply (plain_ty_by_fn is_bin_op).
+  - rewrite body_call. repeat (apply andb_true_iff in H as [H ?]). apply Z.eqb_eq in H.
+    apply Forall_app. split; [apply W, IHf; assumption|]. constructor; [unfold plain_m; cbn [fst]; rewrite H; reflexivity|].
+    apply Forall_app. split; [|constructor; [reflexivity|constructor]].
+    match goal with X : forallb _ args = true |- _ => rename X into Ha end.
+    clear -Ha IHa W. induction args as [|a rest IHr]; [constructor|].
+    cbn [forallb] in Ha. apply andb_true_iff in Ha as [Ha1 Ha2]. inversion IHa as [|? ? E1 E2]; subst.
+    cbn [arg_toks]. apply Forall_app. split; [apply W, E1, Ha1|].
+    destruct rest as [|b rest']; [constructor|]. constructor; [reflexivity|]. now apply IHr.
+  - rewrite body_index. repeat (apply andb_true_iff in H as [H ?]). apply Z.eqb_eq in H.
+    apply Forall_app. split; [apply W, IHl; assumption|]. constructor; [unfold plain_m; cbn [fst]; rewrite H; reflexivity|].
+    apply Forall_app. split; [apply W, IHi; assumption|constructor; [reflexivity|constructor]].
+Qed.
+
+Lemma matches_plain pts ms : matches pts ms -> Forall plain_m ms -> Forall (fun pt => plain_ty (pty pt) = true) pts.
+Proof.
+  induction 1 as [|pt m pts ms [Hp _] _ IH]; intros HF; [constructor|].
+  inversion HF as [|? ? Hm HF']; subst. constructor; [|now apply IH].
+  unfold pty. rewrite Hp. exact Hm.
+Qed.
+
+Lemma plain_not_E pt : plain_ty (pty pt) = true -> isE pt = false.
+Proof.
+  unfold plain_ty, isE. intros H. apply negb_true_iff in H. apply orb_false_iff in H as [H _]. exact H.
+Qed.
+
+Lemma closed_plain e l : Forall (fun pt => plain_ty (pty pt) = true) l -> closed e l.
+Proof.
+  induction 1 as [|x l Hx _ IH]; [exact I|]. cbn [closed]. split; [|exact IH].
+  intros X. rewrite (plain_not_E _ Hx) in X. discriminate X.
+Qed.
+
+Lemma chain_plain e l : Forall (fun pt => plain_ty (pty pt) = true) l -> chain_ok (l ++ [e]) = true.
+Proof.
+  induction 1 as [|x l Hx _ IH]; [reflexivity|].
+  cbn [app]. destruct (l ++ [e]) as [|b r] eqn:E; [reflexivity|].
+  change (chain_ok (x :: b :: r)) with (pair_ok x b && chain_ok (b :: r)). rewrite IH, andb_true_r.
+  unfold pair_ok. unfold plain_ty in Hx. apply negb_true_iff in Hx. apply orb_false_iff in Hx as [_ Hx]. now rewrite Hx.
+Qed.
+
+(* the statement theorem at the fuel the front end really uses: termination (Parser_term) removes the
+   existential, the absence of panics (Parser_nopanic) the third outcome *)
+Theorem fragment_statements_roundtrip_default_fuel conv es ptss :
+  Forall2 (stmt_ok conv) es ptss ->
+  (forall pts, In pts (tl ptss) -> match pts with t :: _ => starts_fresh t | [] => True end) ->
+  parse_program conv (default_fuel (List.concat ptss)) token_EOF (List.concat ptss)
+  = POk (mkPres (map (fun e => Some (to_node e)) es) [] false true).
+Proof.
+  intros HF Hfresh. destruct (fragment_statements_roundtrip conv es ptss HF Hfresh) as [f0 H].
+  set (toks := List.concat ptss) in *.
+  assert (Hpl : Forall (fun pt => plain_ty (pty pt) = true) toks).
+  { unfold toks. clear -HF. induction HF as [|e pts es ptss [Hwf Hm] _ IH]; [constructor|].
+    cbn [List.concat]. apply Forall_app. split; [|exact IH]. eapply matches_plain; [exact Hm|now apply (body_plain conv)]. }
+  pose proof (parse_program_terminates conv token_EOF toks (or_introl eq_refl) (closed_plain _ _ Hpl)) as Hterm.
+  assert (Hnp : forall w, parse_program conv (default_fuel toks) token_EOF toks <> PPanic w).
+  { apply parse_never_panics. unfold comment_shaped. now rewrite chain_plain. }
+  destruct (parse_program conv (default_fuel toks) token_EOF toks) as [r|w|] eqn:E.
+  - pose proof (parse_program_fuel_monotone conv _ (Nat.max f0 (default_fuel toks)) _ _ _ (Nat.le_max_r _ _) E) as E1.
+    rewrite (H _ (Nat.le_max_l _ _)) in E1. now injection E1 as <-.
+  - now exfalso; apply (Hnp w).
+  - now exfalso.
+Qed.
